@@ -55,7 +55,7 @@ MAX_VIOL_PER_CLAUSE = 4      # per unit and clause; the rest is only counted
 # the pinned tree every one of them except -(rank+1) is misaligned (list.insert(-1, ..) puts
 # the name before the last entry). Reported to the maintainer of /verif; set the variable to
 # add the depth-1 units for them.
-NEGATIVE_AXES = os.environ.get('C19_NEGATIVE_AXES') == '1'
+NEGATIVE_AXES = os.environ.get('C19_NEGATIVE_AXES', '1') == '1'   # on by default: recorded as a known finding
 
 
 def bounds(tier):
